@@ -199,6 +199,26 @@ class IntervalEval:
             x = self.ev(a[0])
             self.need(x, I64, v, 'TimeSpec %s (i64 nanoseconds)' % op)
             return x
+        if op == 'ts_from_duration':
+            return self.ev(a[0])
+        if op in ('dur_from_nanos', 'dur_from_micros', 'dur_from_millis', 'dur_from_secs'):
+            x = self.ev(a[0])
+            if x is None:
+                return None
+            k = {'dur_from_nanos': 1, 'dur_from_micros': 10**3, 'dur_from_millis': 10**6, 'dur_from_secs': 10**9}[op]
+            return Iv(x.lo * k, x.hi * k)
+        if op == 'dur_new':
+            x, y = self.ev(a[0]), self.ev(a[1])
+            return None if x is None or y is None else Iv(x.lo * 10**9 + y.lo, x.hi * 10**9 + y.hi)
+        if op in ('ts_seconds', 'ts_milliseconds', 'ts_microseconds'):
+            # a TimeSpec built from a count of larger units: its value in nanoseconds
+            x = self.ev(a[0])
+            if x is None:
+                return None
+            k = {'ts_seconds': 10**9, 'ts_milliseconds': 10**6, 'ts_microseconds': 10**3}[op]
+            r = Iv(x.lo * k, x.hi * k)
+            self.need(r, I64, v, 'TimeSpec %s (i64 nanoseconds)' % op)
+            return r
         if op == 'cast':
             x = self.ev(a[0])
             ck, ty = a[1], a[2]
